@@ -73,6 +73,13 @@ func (p *program) newInner(k int, tok, hook common.Address, body []*evmx.Node) *
 func (e *env) genProgram(rng *rand.Rand) *program {
 	p := &program{meta: map[int]*meta{}, nodes: map[int]*evmx.Node{}, ctxOf: map[int]common.Address{}, inner: map[int]*inner{}, used: map[int]bool{}}
 	p.addrs = []common.Address{e.pool[0]}
+	e.attachGen(rng, p)
+	p.root = p.body(0, e.pool[0], false)
+	return p
+}
+
+// attachGen gives p its body generator
+func (e *env) attachGen(rng *rand.Rand, p *program) {
 	var gen func(depth int, ctx common.Address, static bool) []*evmx.Node
 	gen = func(depth int, ctx common.Address, static bool) []*evmx.Node {
 		n := 2 + rng.Intn(4)
@@ -134,8 +141,84 @@ func (e *env) genProgram(rng *rand.Rand) *program {
 		return out
 	}
 	p.body = gen
-	p.root = gen(0, e.pool[0], false)
-	return p
+}
+
+// directed programs, run before the random ones: every state-changing method (and its token variants) once called
+// directly (uncaught; the gas sweep cuts inside the native action) and once inside a frame that reverts after the call
+// and is caught by its caller; late-failing variants inside a caught frame.  Built by rejection sampling on the same
+// argument generator, so they stay in step with it.
+var directedVariants = []string{"delegateV2", "undelegateV2", "redelegateV2", "withdraw", "approveShares", "transferShares", "transferFromShares",
+	"crossChain/origin", "crossChain/wfx", "crossChain/tst", "crossChain/hook-token", "cancelSendToExternal", "increaseBridgeFee/origin",
+	"increaseBridgeFee/wfx", "bridgeCall/value", "bridgeCall/no-value", "bridgeCall/no-value+wfx", "bridgeCall/no-value+tst", "bridgeCall/no-value+wfx+tst",
+	"bridgeCall/value+tst", "executeClaim", "delegationRewards",
+	"transferFromShares/late-insufficient-shares", "crossChain/wfx/late-bad-receipt", "crossChain/tst/late-bad-receipt", "crossChain/origin/late-bad-receipt",
+	"crossChain/hook-token/late-bad-receipt", "bridgeCall/no-value+tst/late-token-fails", "bridgeCall/no-value+wfx+tst/late-token-fails",
+	"transferFromShares/keeper-rejects", "increaseBridgeFee/wfx:fail"}
+
+func (e *env) directed(rng *rand.Rand) []*program {
+	var res []*program
+	for _, want := range directedVariants {
+		wantMode := ""
+		if i := len(want) - len(":fail"); i > 0 && want[i:] == ":fail" {
+			want, wantMode = want[:i], "fail"
+		}
+		for shape := 0; shape < 2; shape++ {
+			var got *program
+			for try := 0; try < 40000 && got == nil; try++ {
+				p := &program{meta: map[int]*meta{}, nodes: map[int]*evmx.Node{}, ctxOf: map[int]common.Address{}, inner: map[int]*inner{}, used: map[int]bool{}}
+				p.addrs = []common.Address{e.pool[0], e.pool[1]}
+				e.attachGen(rng, p)
+				ctx := e.pool[0]
+				if shape == 1 {
+					ctx = e.pool[1]
+				}
+				p.next = 10
+				nd := &evmx.Node{ID: 10}
+				p.depth = 2 // hook bodies of directed programs stay small
+				mt := e.genPre(rng, p, nd, ctx, false)
+				if mt.variant != want || nd.Kind != evmx.KCall || nd.Gas != 0 || nd.Swallow || (wantMode != "" && mt.mode != wantMode) {
+					continue
+				}
+				if in := p.inner[nd.ID]; in != nil {
+					hasPre := false
+					evmx.Walk(in.hookNode.Body, 0, func(n *evmx.Node, _ int) { hasPre = hasPre || (n.Op == "pre" && n.Kind == evmx.KCall && e.writer[p.meta[n.ID].method]) })
+					if !hasPre {
+						continue // the point of a hook token: a native action inside the native action
+					}
+				}
+				nd.Op = "pre"
+				p.meta[nd.ID] = mt
+				p.nodes[nd.ID] = nd
+				p.ctxOf[nd.ID] = ctx
+				mk := func(id int, c common.Address) *evmx.Node {
+					n := &evmx.Node{Op: "sstore", ID: id, Slot: uint64(id), Val: 1}
+					p.nodes[id], p.ctxOf[id] = n, c
+					return n
+				}
+				if shape == 0 {
+					p.root = []*evmx.Node{mk(1, e.pool[0]), nd, mk(2, e.pool[0])}
+				} else {
+					rv := &evmx.Node{Op: "revert", ID: 4}
+					body := []*evmx.Node{mk(3, e.pool[1]), nd}
+					if mt.mode != "fail" {
+						body = append(body, rv) // a failing call bubbles up by itself
+						p.nodes[4], p.ctxOf[4] = rv, e.pool[1]
+					}
+					cl := &evmx.Node{Op: "call", ID: 5, Kind: evmx.KCall, To: e.pool[1], Swallow: true, Body: body}
+					p.nodes[5], p.ctxOf[5] = cl, e.pool[0]
+					p.root = []*evmx.Node{mk(1, e.pool[0]), cl, mk(2, e.pool[0])}
+				}
+				got = p
+			}
+			if got != nil {
+				res = append(res, got)
+				e.cnt("directed:" + want)
+			} else {
+				e.cnt("directed-not-found:" + want)
+			}
+		}
+	}
+	return res
 }
 
 var preMethods = []string{"delegateV2", "delegateV2", "undelegateV2", "redelegateV2", "withdraw", "approveShares", "approveShares",
@@ -203,7 +286,14 @@ func (e *env) genPre(rng *rand.Rand, p *program, nd *evmx.Node, ctx common.Addre
 	case "transferShares":
 		data, err = sabi.Pack(m, val, e.sink, amt(10))
 	case "transferFromShares":
-		data, err = sabi.Pack(m, val, e.owner.Address(), e.sink, amt(10))
+		from := e.owner.Address()
+		if mode == "fail" && variant == m && rng.Intn(2) == 0 {
+			// the allowance suffices, the owner's delegation does not: fails AFTER the allowance was spent
+			val, from = e.vals[0], e.owner2.Address()
+			amt = func(k int64) *big.Int { return new(big.Int).Mul(big.NewInt(2), big.NewInt(1e18)) }
+			variant = m + "/late-insufficient-shares"
+		}
+		data, err = sabi.Pack(m, val, from, e.sink, amt(10))
 	case "delegation", "delegationRewards":
 		data, err = sabi.Pack(m, val, ctx)
 	case "crossChain":
